@@ -24,10 +24,10 @@ func vH_C04_path_testpic2s_V300_time() { vC04Path(vAsset_testpic_2s(), "V300", 1
 func vH_C04_path_wave2997_A48_time() {
 	vC04Path(vAsset_WAVE_vectors_cfhd_sets_14_985_29_97_59_94_t1_2022_10_17(), "A48", 1)
 }
-func vH_C04_path_bbb_ac3_time()          { vC04Path(vAsset_bbb_hevc_ac3_8s(), "2", 1) }
-func vH_C04_below_testpic2s_V300()       { vC04Below(vAsset_testpic_2s(), "V300", 0) }
-func vH_C04_below_testpic2s_A48()        { vC04Below(vAsset_testpic_2s(), "A48", 0) }
-func vH_C04_below_testpic2s_A48_tlnr()   { vC04Below(vAsset_testpic_2s(), "A48", 2) }
+func vH_C04_path_bbb_ac3_time()        { vC04Path(vAsset_bbb_hevc_ac3_8s(), "2", 1) }
+func vH_C04_below_testpic2s_V300()     { vC04Below(vAsset_testpic_2s(), "V300", 0) }
+func vH_C04_below_testpic2s_A48()      { vC04Below(vAsset_testpic_2s(), "A48", 0) }
+func vH_C04_below_testpic2s_A48_tlnr() { vC04Below(vAsset_testpic_2s(), "A48", 2) }
 
 // mode: 0 = $Number$, 1 = SegmentTimeline $Time$, 2 = SegmentTimeline $Number$
 func vC04Path(a *asset, repID string, mode int) {
